@@ -28,6 +28,8 @@ enum Step {
     VoteDup,
     /// vote response carrying an id that is not configured
     VoteUnknown,
+    /// vote response carrying the node's own id (forged, or a misconfigured peer)
+    VoteSelf,
     /// vote request from configured peer 0 with a priority that is higher / equal / lower
     VoteReq(i8),
     /// vote request from a stranger with a higher priority
@@ -115,9 +117,9 @@ impl Scenario for ElectionScenario {
                 let ok = if i == 0 {
                     *s == Step::Timeout
                 } else if self.family == 1 {
-                    matches!(s, Step::VoteNew | Step::VoteDup | Step::VoteUnknown)
+                    matches!(s, Step::VoteNew | Step::VoteDup | Step::VoteUnknown | Step::VoteSelf)
                 } else {
-                    matches!(s, Step::VoteNew | Step::VoteDup | Step::Silence | Step::Timeout)
+                    matches!(s, Step::VoteNew | Step::VoteDup | Step::VoteSelf | Step::Silence | Step::Timeout)
                 };
                 if !ok {
                     return None;
@@ -241,6 +243,9 @@ impl Scenario for ElectionScenario {
                     }
                     Step::VoteUnknown => {
                         stranger.send_to(&msg_vote_response("stranger"), node_addr).await.ok();
+                    }
+                    Step::VoteSelf => {
+                        stranger.send_to(&msg_vote_response("me"), node_addr).await.ok();
                     }
                     Step::VoteReq(rel) => {
                         // numerically lower = higher priority
@@ -369,6 +374,7 @@ fn all_steps() -> Vec<Step> {
         Step::VoteNew,
         Step::VoteDup,
         Step::VoteUnknown,
+        Step::VoteSelf,
         Step::VoteReq(1),
         Step::VoteReq(0),
         Step::VoteReq(-1),
@@ -466,7 +472,7 @@ fn main() {
     ev.set("configurations_with_leader_outcome", json!(outcomes.keys().filter(|k| k.ends_with(":leader")).map(|k| k.rsplitn(3, '-').last().unwrap_or("").to_owned() + "-" + k.split('-').nth(1).unwrap_or("")).collect::<BTreeSet<_>>().len()));
     ev.set("distinct_nontrivial", json!(classes.len()));
     ev.set("exhaustive", json!(exhaustive));
-    ev.set("rule", json!(format!("cluster sizes 1..{max_n}, configured quorum none or 1..n; for each configuration every sequence of scripted peer behaviours (vote from a new / duplicate / unknown node, vote request with higher / equal / lower priority, from a stranger, heartbeat request from a member / stranger, heartbeat response, election timeout, silence) up to the completed depth, plus the timeout-then-votes paths up to quorum+2 so that the leader outcome is reachable for every quorum, plus the election-round paths (timeout, votes of configured peers, expiry of the round, timeout, votes …) up to depth {rounds} so that votes of expired rounds are offered to later rounds; distinct_nontrivial counts distinct (last step, outcome) classes", rounds = if thorough { 9 } else { 7 })));
+    ev.set("rule", json!(format!("cluster sizes 1..{max_n}, configured quorum none or 1..n; for each configuration every sequence of scripted peer behaviours (vote from a new / duplicate / unknown node / carrying the node's own id, vote request with higher / equal / lower priority, from a stranger, heartbeat request from a member / stranger, heartbeat response, election timeout, silence) up to the completed depth, plus the timeout-then-votes paths up to quorum+2 so that the leader outcome is reachable for every quorum, plus the election-round paths (timeout, votes of configured peers, expiry of the round, timeout, votes …) up to depth {rounds} so that votes of expired rounds are offered to later rounds; distinct_nontrivial counts distinct (last step, outcome) classes", rounds = if thorough { 9 } else { 7 })));
     ev.assume("safety only: 'leader' implies votes from at least quorum-1 distinct configured peers since the node's latest vote-request broadcast; 'follower' implies a heartbeat request from that node, and follow() returns without starting anything for a node that is not configured; liveness is not asserted");
     ev.assume("paused tokio clock, real loopback UDP sockets, the harness never parks (fixed number of yields per step, event_interval 1); the randomized election timeout (t..2t) is crossed by advancing in t/8 steps until the vote requests are observed");
     ev.assume("senders are chosen canonically (lowest-numbered configured peer): the election code inspects a peer's identity only for membership and equality");
